@@ -355,11 +355,34 @@ func runHist(c HistCase) (string, bool) {
 	active := map[key]int32{}
 	nt := false
 	unsubbed := false
-	for _, op := range c.Ops {
+	topics := probeTopics(c.Pool)
+	// look: every probe topic is looked up in the middle of the history (what a publish arriving
+	// at that moment does) and must see the active set of that moment - an index that remembers
+	// anything from one lookup to the next shows here
+	look := func(step int) string {
+		for _, tp := range topics {
+			var want []string
+			for k, q := range active {
+				if ref.MatchS(c.Pool[k.filter], tp) {
+					want = append(want, fmt.Sprintf("%s|s%d q%d", c.Pool[k.filter], k.sess, q))
+				}
+			}
+			sort.Strings(want)
+			if ga := byPattern(a, tp); strings.Join(ga, "\x00") != strings.Join(want, "\x00") {
+				return fmt.Sprintf("topic %q looked up after step %d: ByPattern yields %q, reference %q", tp, step, ga, want)
+			}
+		}
+		return ""
+	}
+	for i, op := range c.Ops {
 		clock++
 		dst.SetNow(clock)
 		sid := fmt.Sprintf("s%d", op.Sess)
 		switch op.Op {
+		case "look":
+			if m := look(i); m != "" {
+				return m, nt
+			}
 		case "sub":
 			if unsubbed {
 				nt = true // re-subscribe / subscribe after an unsubscribe
@@ -410,7 +433,7 @@ func runHist(c HistCase) (string, bool) {
 		dst.SetNow(clock)
 		b.State.Subscriptions().Create(fmt.Sprintf("s%d", k.sess), []byte("mp/"+c.Pool[k.filter]), active[k])
 	}
-	for _, tp := range probeTopics(c.Pool) {
+	for _, tp := range topics {
 		var want []string
 		for _, k := range keys {
 			if ref.MatchS(c.Pool[k.filter], tp) {
@@ -457,7 +480,9 @@ func TestHistories(t *testing.T) {
 		n := rapid.IntRange(1, 30).Draw(t, "n")
 		for i := 0; i < n; i++ {
 			op := HOp{Sess: rapid.IntRange(0, 3).Draw(t, "sess"), Filter: rapid.IntRange(0, 5).Draw(t, "filter"), QoS: int32(rapid.IntRange(0, 2).Draw(t, "qos"))}
-			switch x := rapid.IntRange(0, 9).Draw(t, "op"); {
+			switch x := rapid.IntRange(0, 11).Draw(t, "op"); {
+			case x >= 10:
+				op = HOp{Op: "look"}
 			case x < 6:
 				op.Op = "sub"
 			case x < 9:
